@@ -88,6 +88,19 @@ pub struct RtCase {
 fn trips<T: Serialize + DeserializeOwned>(v0: &T) -> (Vec<String>, Vec<Option<T>>) {
     let mut texts = Vec::new();
     let mut vals: Vec<Option<T>> = Vec::new();
+    // a serialisation that FAILS half-way (the writer is full after three bytes) comes first on this thread: what was
+    // written into a dead buffer must not turn up in any later serialisation
+    // (writers that fill up at the start, inside the `scope` string, shortly before the end and one byte before the end)
+    let t0 = serde_json::to_string(v0).unwrap_or_default();
+    let mut caps = vec![3usize, t0.len().saturating_sub(4), t0.len().saturating_sub(1)];
+    if let Some(p) = t0.find("\"scope\":\"") {
+        caps.push(p + 9);
+        caps.push(p + 10);
+    }
+    for cap in caps {
+        let mut buf = vec![0u8; cap.min(t0.len().saturating_sub(1))];
+        let _ = serde_json::to_writer(&mut buf[..], v0);
+    }
     let t1 = serde_json::to_string(v0).unwrap_or_else(|_| "SERIALIZE-FAILED".into());
     let v1: Option<T> = serde_json::from_str(&t1).ok();
     let t2 = v1.as_ref().map(|v| serde_json::to_string(v).unwrap_or_else(|_| "SERIALIZE-FAILED".into())).unwrap_or_default();
